@@ -77,6 +77,7 @@ fn run_hist(args: &Args) {
         max_len: args.max_len,
         stepped: args.flags.iter().any(|f| f == "--stepped"),
         faults: args.flags.iter().any(|f| f == "--faults"),
+        snapshots: args.flags.iter().any(|f| f == "--snapshots"),
     };
     let mut todo: Vec<(String, usize, u64, Vec<String>)> = Vec::new();
     let mut files: Vec<PathBuf> = Vec::new();
@@ -90,7 +91,7 @@ fn run_hist(args: &Args) {
         }
     }
     for f in &files {
-        for (hdr, lines) in read_cases(f) {
+        for (ci, (hdr, lines)) in read_cases(f).into_iter().enumerate() {
             let nreps = lines
                 .iter()
                 .find_map(|l| l.strip_prefix("R ").and_then(|n| n.trim().parse::<usize>().ok()))
@@ -100,7 +101,7 @@ fn run_hist(args: &Args) {
                 .find_map(|t| t.strip_prefix("sqlite=").and_then(|m| m.parse::<u64>().ok()))
                 .unwrap_or(0);
             let name = f.file_name().unwrap().to_string_lossy().to_string();
-            todo.push((format!("# case corpus:{} sqlite={}", name, mask), nreps, mask, lines));
+            todo.push((format!("# case corpus:{}#{} sqlite={}", name, ci, mask), nreps, mask, lines));
         }
     }
     if args.replay.is_none() {
